@@ -21,7 +21,7 @@ RULE = (
 ASSUMPTIONS = [
     "streams are opened in id order through get_next_available_stream_id (the documented way)",
     "a limit counts from the moment the frame carrying it was handed to receive_datagram in a packet the SUT can decrypt",
-    "0-RTT (remembered limits) is not generated here",
+    "resumed clients: limits remembered from a session ticket are generated, early data is not (the application writes after the handshake); a server that accepts the resumption keeps or raises the remembered limits, as RFC 9000 7.4.1 requires of it; one that declines it may advertise anything",
 ]
 
 V62 = (1 << 62) - 1
@@ -67,11 +67,47 @@ def run_history(ctx, case):
                 self._local_max_streams_bidi.value = self._local_max_streams_bidi.sent = case["streams_bidi"]
                 self._local_max_streams_uni.value = self._local_max_streams_uni.sent = case["streams_uni"]
 
+        # a client that resumes: an earlier connection to the same server left a session ticket with remembered transport parameters.
+        #  "declined": that server advertised large limits, the new one does not accept the ticket (full handshake) and advertises the case's
+        #  "accepted": that server advertised zero everywhere, the new one accepts the ticket and advertises the case's (nothing is reduced)
+        ticket = None
+        sconn_kw = {}
+        remembered = case.get("remembered") if sut_is_client else None
+        if remembered:
+            store = {}
+            got = []
+            prev = {"max_data": 1048576, "max_stream_data": 1048576} if remembered == "declined" else {"max_data": 0, "max_stream_data": 0}
+
+            def patched0(self, *a, **k):
+                orig_init(self, *a, **k)
+                if not self._is_client and remembered == "accepted":
+                    self._local_max_streams_bidi.value = self._local_max_streams_bidi.sent = 0
+                    self._local_max_streams_uni.value = self._local_max_streams_uni.sent = 0
+
+            QC.QuicConnection.__init__ = patched0
+            try:
+                c0 = QC.QuicConnection(configuration=E.client_config(), session_ticket_handler=got.append)
+                c0.connect(E.SERVER_ADDR, now=0.0)
+                s0 = QC.QuicConnection(configuration=E.server_config("ed25519", **prev), original_destination_connection_id=c0.original_destination_connection_id, session_ticket_handler=lambda t: store.__setitem__(t.ticket, t))
+            finally:
+                QC.QuicConnection.__init__ = orig_init
+            t0 = 0.0
+            for _ in range(6):
+                t0 += 0.001
+                E.transfer(c0, s0, t0, E.CLIENT_ADDR)
+                t0 += 0.001
+                E.transfer(s0, c0, t0, E.SERVER_ADDR)
+            if not got:
+                raise RuntimeError("harness: no session ticket")
+            ticket = got[0]
+            if remembered == "accepted":
+                sconn_kw = {"session_ticket_fetcher": lambda k: store.pop(k, None)}
         QC.QuicConnection.__init__ = patched
         try:
-            tk = Takeover(role, client_kw=peer_kw if not sut_is_client else {}, server_kw=peer_kw if sut_is_client else {})
+            tk = Takeover(role, client_kw=peer_kw if not sut_is_client else {}, server_kw=peer_kw if sut_is_client else {}, session_ticket=ticket, server_conn_kw=sconn_kw)
         finally:
             QC.QuicConnection.__init__ = orig_init
+        pre_cls = ["resumed:" + remembered + (":session-resumed" if tk.client.tls.session_resumed else ":full-handshake")] if remembered else []
         tp = transport_parameters(tk, tk.P)
         if tp is None:
             raise RuntimeError("harness: cannot recover the peer's transport parameters")
@@ -95,7 +131,7 @@ def run_history(ctx, case):
         reset_written = set()
         streams = []
         acked = set()
-        cls = set()
+        cls = set(pre_cls)
         dead = [False]
         blocked = [False]
         retransmitted = [False]
@@ -372,7 +408,7 @@ def histories(ctx, examples, shard):
 
     lim = st.sampled_from([0, 1, 100, 1199, 1200, 1201, 1201, 16384, 16384, 16384])
     strat = st.fixed_dictionaries(
-        {"kind": st.just("c06"), "role": st.sampled_from(["client", "server"]), "max_data": lim, "max_stream_data": lim, "streams_bidi": st.sampled_from([0, 1, 2, 5, 5]), "streams_uni": st.sampled_from([0, 1, 2, 5, 5]), "ops": ops_strategy()}
+        {"kind": st.just("c06"), "role": st.sampled_from(["client", "server"]), "max_data": lim, "max_stream_data": lim, "streams_bidi": st.sampled_from([0, 1, 2, 5, 5]), "streams_uni": st.sampled_from([0, 1, 2, 5, 5]), "remembered": st.sampled_from([None, None, None, "declined", "accepted"]), "ops": ops_strategy()}
     )
 
     def body(ctx, case):
